@@ -34,15 +34,15 @@ type verdictRec struct {
 }
 
 type verdictMismatch struct {
-	Entry    string   `json:"entry"`
-	Rules    []string `json:"rules"`
-	SrcRules []string `json:"source_rules"`
+	Entry    string     `json:"entry"`
+	Rules    []string   `json:"rules"`
+	SrcRules []string   `json:"source_rules"`
 	Lists    [][]string `json:"lists,omitempty"`
-	Expected string   `json:"expected"`
-	Got      string   `json:"got"`
-	GotRule  string   `json:"got_rule"`
-	Why      string   `json:"why"`
-	Cause    string   `json:"cause"`
+	Expected string     `json:"expected"`
+	Got      string     `json:"got"`
+	GotRule  string     `json:"got_rule"`
+	Why      string     `json:"why"`
+	Cause    string     `json:"cause"`
 	Case     verdictRec `json:"case"`
 }
 
@@ -391,14 +391,26 @@ func cmdReplayVerdict(args []string) error {
 				check("NetworkEngine.Match", p, sp, lists, c.Web, c.Winners, c.Cands, got, false, pv)
 				if allHostLevel {
 					var matched bool
+					var netRules []*rules.NetworkRule
 					pv = safeCall(func() {
 						var res *urlfilter.DNSResult
 						res, matched = urlfilter.NewDNSEngine(st).MatchRequest(env.dnsReq)
 						got = res.NetworkRule
+						_ = res.DNSRewrites()
+						netRules = res.NetworkRules
 					})
 					check("DNSEngine.MatchRequest", p, sp, lists, c.DNS, c.DNSWinners, c.DNSCands, got, false, pv)
 					if pv == "" && matched != (got != nil) {
 						report(c, "DNSEngine.MatchRequest", texts, nil, lists, c.DNS, classOf(got), "", "matched flag")
+					}
+					if pv == "" {
+						// every rule of the bag matches the request: NetworkRules is the bag, each rule once
+						a, b := append([]string{}, texts...), textsOf(netRules)
+						sort.Strings(a)
+						sort.Strings(b)
+						if strings.Join(a, "\n") != strings.Join(b, "\n") {
+							report(c, "DNSEngine.MatchRequest", texts, nil, lists, strings.Join(a, " | "), strings.Join(b, " | "), "", "NetworkRules is not the list of matching rules")
+						}
 					}
 				}
 			}
